@@ -11,6 +11,9 @@ UNIVERSE = {  # must mirror Attr in MCDag.tla (the driver builds real bytes from
     "b": dict(prevs=["r"], lc=1, sig=True, wf=True),
     "c": dict(prevs=["a", "b"], lc=2, sig=True, wf=True),
     "d": dict(prevs=["c"], lc=3, sig=True, wf=True),
+    "e": dict(prevs=["a"], lc=2, sig=True, wf=True),
+    "f": dict(prevs=["e"], lc=3, sig=True, wf=True),
+    "s": dict(prevs=["r"], lc=1, sig=True, wf=True, payload_of="a"),
     "x": dict(prevs=["r"], lc=2, sig=True, wf=True),
     "y": dict(prevs=["a", "b"], lc=1, sig=True, wf=True),
     "r2": dict(prevs=[], lc=0, sig=True, wf=True),
@@ -53,6 +56,24 @@ def generate(cfg, seed, n_exh, n_sim, sim_depth=70, timeout=900):
         sig = tuple(sorted(set((s["a"], s.get("res", "")) for s in b)))
         buckets.setdefault(sig, []).append(b)
     chosen = []
+    # directed picks: multi-step patterns that a uniform sample would rarely contain
+    def shared_payload(b):
+        # a payload is stored, then another transaction declaring the same payload hash arrives with other bytes
+        got = set()
+        for st in b:
+            if st["a"] == "Offer" and st.get("pl") == "good":
+                got.add(st["t"])
+            if st["a"] == "Offer" and st.get("pl") == "bad" and ((st["t"] == "s" and "a" in got) or (st["t"] == "a" and "s" in got)):
+                return True
+        return False
+    for pred in (shared_payload,):
+        k = 0
+        for b in wit:
+            if pred(b):
+                chosen.append(b)
+                k += 1
+                if k >= 12:
+                    break
     keys = sorted(buckets)
     rnd.shuffle(keys)
     while len(chosen) < n_exh and keys:
@@ -77,14 +98,17 @@ def to_scripts(behaviours, prefix):
 
 
 def concretise(scripts, uni, rnd):
-    """C06: every script gets a random concrete defect (or valid variant) for each abstract class; the driver
-    rebuilds the universe per script with these."""
+    """C06: every script gets a concrete defect (or valid variant) for each abstract class it offers; classes are
+    assigned round-robin (starting at a seed-dependent offset) so that every concrete class is used in every run."""
     out = []
+    counters = {"w": rnd.randrange(len(MALFORMED)), "u": rnd.randrange(len(BADSIG)), "a": rnd.randrange(len(VALID_VARIANTS))}
     for sc in scripts:
+        offered = set(s.get("t") for s in sc["steps"])
         d = {}
         for cls, variants in (("w", MALFORMED), ("u", BADSIG), ("a", VALID_VARIANTS)):
-            if cls in uni:
-                v = rnd.choice(variants)
+            if cls in uni and cls in offered:
+                v = variants[counters[cls] % len(variants)]
+                counters[cls] += 1
                 if v:
                     d[cls] = v
         out.append(dict(sc, defects=d))
@@ -112,6 +136,37 @@ def budget_scripts():
     out.append(dict(id="budget-fail-forever", steps=add("p1", "r", "good"), default={"": "fail"}, restarts=2))
     out.append(dict(id="budget-incomplete-forever", steps=add("p1", "r", "none") + add("p1", "a", "good"), default={"": "incomplete"}, restarts=1))
     out.append(dict(id="budget-fatal", steps=add("p1", "r", "good"), default={"": "fatal"}, restarts=2))
+    # the node stops in the middle of the budget: the remaining attempts must be made after the restart
+    for k in (3, 12, 17):
+        calls = []
+        for s in ("s1", "s2"):
+            for i in range(k):
+                calls += [dict(a="NotifyCall", s=s, t="r", res="fail"), dict(a="NotifyMark", s=s, t="r", res="fail")]
+        # one more delivery whose completion marking never happens: the process stops right there
+        calls += [dict(a="NotifyCall", s="s1", t="r", res="fail")]
+        out.append(dict(id="budget-restart-after-%d" % k, steps=add("p1", "r", "good") + calls + [dict(a="Crash")], default={"": "fail"}, restarts=0))
+    # a failure, then a fatal error during the retries
+    out.append(dict(id="fatal-during-retries", steps=add("p1", "r", "good") + [dict(a="NotifyCall", s="s1", t="r", res="fail"), dict(a="NotifyMark", s="s1", t="r", res="fail"),
+                    dict(a="NotifyCall", s="s2", t="r", res="fail"), dict(a="NotifyMark", s="s2", t="r", res="fail")], default={"": "fatal"}, restarts=1))
+    return out
+
+
+def directed_admit_scripts():
+    """C06: multi-step behaviours of the model that a sample of witnesses rarely contains (still behaviours of Dag.tla)."""
+    def add(p, t, pl):
+        return [dict(a="Offer", p=p, t=t, pl=pl), dict(a="ReadVerify", p=p, t=t, res="verified"), dict(a="LockWrite", p=p, t=t, res="written"),
+                dict(a="Commit", p=p, t=t), dict(a="AfterCommit", p=p, t=t)]
+    def fnerr(p, t, pl):
+        return [dict(a="Offer", p=p, t=t, pl=pl), dict(a="ReadVerify", p=p, t=t, res="verified"), dict(a="LockWrite", p=p, t=t, res="error"),
+                dict(a="Rollback", p=p, t=t), dict(a="OnRollback", p=p, t=t)]
+    def present(p, t, pl):
+        return [dict(a="Offer", p=p, t=t, pl=pl), dict(a="ReadVerify", p=p, t=t, res="present")]
+    out = []
+    # a payload is stored; another transaction declaring the same payload hash is offered with different bytes
+    out.append(dict(id="admit-d-shared-payload-1", steps=add("p1", "r", "none") + add("p1", "a", "good") + fnerr("p1", "s", "bad") + add("p1", "s", "good")))
+    out.append(dict(id="admit-d-shared-payload-2", steps=add("p1", "r", "good") + add("p1", "s", "good") + fnerr("p1", "a", "bad") + add("p1", "a", "none")))
+    # re-submission of a present transaction with another payload changes nothing
+    out.append(dict(id="admit-d-resubmit", steps=add("p1", "r", "good") + add("p1", "a", "good") + present("p1", "a", "bad") + present("p1", "r", "none")))
     return out
 
 
@@ -169,6 +224,8 @@ def run(prop, tier, seed, replay=None):
         if fam == "notify":
             scripts += budget_scripts()
             uni = {k: UNIVERSE[k] for k in set(tx) | {"r", "a"}}
+        if fam == "admit":
+            scripts += directed_admit_scripts()
         if prop == "C06":
             uni, scripts = concretise(scripts, uni, rnd)
         bases = [0, 510] if quick else [0, 510, 1022]
